@@ -6,14 +6,11 @@
    revisions, range results incl. more, header revisions) and the watch events.  `sim A m` (Proofs/Adapters.v) is
    "A refines the engine contract" — the statement C11 proves for memkv, Badger, TiKV and the wrapper. *)
 From KB Require Import Base.Cases Model.Store Model.Adapters Model.C11Cases Model.Coder Model.BackendSeq Model.C12Cases
-  Proofs.Adapters Proofs.C11Cases Proofs.C12Wrapper Proofs.C12Indep Proofs.C12Compact Proofs.C12Cases.
+  Proofs.Adapters Proofs.C11Cases Proofs.C12Wrapper Proofs.C12Indep Proofs.C12Compact Proofs.C12Restart Proofs.C12Clients Proofs.C12Cases Proofs.C12Exact.
 Local Open Scope N_scope.
 
-(* the full statement: every sequential history, any two adapters that refine the contract *)
-Definition C12_full_statement : Prop :=
-  forall A mA (SA : sim A mA) B mB (SB : sim B mB) prefix init qs,
-    run_history A prefix init qs = run_history B prefix init qs.
-
+(* C12_full_statement (Proofs/C12Cases.v): every sequential history, any two adapters that refine the contract, equal
+   run_history.  It is refuted by finding C12-F1 (below); what is proved is the statement relative to the written values. *)
 (* Proved, relative to the set VP of values a history may write (VP must contain every non-empty value): every
    sequential history — Create / Update / Delete / Get / List / Count / ListByStream / Compact; correct, stale, zero and
    future expected revisions; existing, missing, deleted, deleted-and-compacted keys; limits; explicit read revisions —
@@ -36,7 +33,7 @@ Theorem C12_plain_ok_all : forall e, plain_ok nonempty (sim_of e).
 Proof. exact plain_ok_of. Qed.
 Print Assumptions C12_plain_ok_all.
 
-Theorem C12_plain_ok_any_value : forall e, e <> ETiKV -> plain_ok anyvalue (sim_of e).
+Theorem C12_plain_ok_any_value : forall e, tikv_eng e = false -> plain_ok anyvalue (sim_of e).
 Proof. exact plain_any_of. Qed.
 Print Assumptions C12_plain_ok_any_value.
 
@@ -44,7 +41,7 @@ Theorem C12_stamped_all : forall e, stamped_if_version (sim_of e).
 Proof. exact stamped_of. Qed.
 Print Assumptions C12_stamped_all.
 
-(* all five engine models, on histories that write no empty value: the statement outside finding C12-F1 *)
+(* all six engine models (memkv, Badger, TiKV, each also behind the wrapper), on histories that write no empty value: the statement outside finding C12-F1 *)
 Theorem C12_engine_independent_except_F1 : forall e1 e2 prefix init qs, Forall (hist_ok nonempty) qs ->
   run_history (adapter_of e1) prefix init qs = run_history (adapter_of e2) prefix init qs.
 Proof.
@@ -56,7 +53,7 @@ Print Assumptions C12_engine_independent_except_F1.
 
 (* memkv, Badger and the metrics wrapper over them, on EVERY history, empty values included: since Get returns the
    key-value whatever the value (repair of C16-F8), what is left of C12-F1 is TiKV alone *)
-Theorem C12_engine_independent_storing_empty : forall e1 e2 prefix init qs, e1 <> ETiKV -> e2 <> ETiKV ->
+Theorem C12_engine_independent_storing_empty : forall e1 e2 prefix init qs, tikv_eng e1 = false -> tikv_eng e2 = false ->
   run_history (adapter_of e1) prefix init qs = run_history (adapter_of e2) prefix init qs.
 Proof.
   exact (fun e1 e2 prefix init qs H1 H2 =>
@@ -97,10 +94,62 @@ Theorem C12_full_refuted_memkv_tikv :
 Proof. exact empty_value_memkv_tikv. Qed.
 Print Assumptions C12_full_refuted_memkv_tikv.
 
-(* the oracle evaluated on the implementation's transcripts accepts whatever the models produce *)
-Theorem C12_oracle_sound : forall c, c12_valid c -> c12_check c = true -> c12_oracle c = None.
-Proof. exact c12_oracle_sound. Qed.
-Print Assumptions C12_oracle_sound.
+Theorem C12_full_statement_refuted : ~ C12_full_statement.
+Proof. exact full_statement_refuted. Qed.
+Print Assumptions C12_full_statement_refuted.
+
+(* the TiKV adapter spread over n+1 clients of one cluster (the index of the serving client moves on with every batch,
+   also a failed one) refines the contract like the single-client adapter and answers every history alike: the
+   tikv-2-clients / tikv-4-clients configurations are checked against the same adapter model *)
+Theorem C12_multi_client_refines : forall A m (S : sim A m) n, sim (multi_client A n) m.
+Proof. exact sim_multi_client. Qed.
+Print Assumptions C12_multi_client_refines.
+
+Theorem C12_multi_client_transparent :
+  forall (VP : bytes -> Prop), (forall v, v <> [] -> VP v) -> forall A m (S : sim A m) n prefix init qs,
+  plain_ok VP S -> stamped_if_version S -> Forall (hist_ok VP) qs ->
+  run_history (multi_client A n) prefix init qs = run_history A prefix init qs.
+Proof. exact multi_client_transparent. Qed.
+Print Assumptions C12_multi_client_transparent.
+
+(* Restarts.  In the sequential model the backend state is the engine plus the revision reached, and a restart hands
+   exactly that to the new backend: the two model-level facts below are eta-expansions of the state record — they record
+   the modelling decision, they do not establish it.  The content is in C12_restart_observed: the driver performs real
+   restarts (Badger directory closed and reopened, a new Backend with SetCurrentRevision), and whenever its observation
+   passes c12_check, the responses, the watch events (r_events) and the raw engine contents it recorded are those of
+   the model run on the history WITHOUT the restart steps. *)
+Theorem C12_restart_is_identity_in_model : forall A prefix (st : BackendSeq.bstate A), q_step A prefix st QRestart = (st, PRestarted, []).
+Proof. exact restart_step. Qed.
+Print Assumptions C12_restart_is_identity_in_model.
+
+Theorem C12_restart_steps_drop_out_in_model : forall A prefix init qs,
+  let '(final, rs, evs) := run_history A prefix init qs in
+  let '(final', rs', evs') := run_history A prefix init (strip_reqs qs) in
+  final = final' /\ strip_resps rs = strip_resps rs' /\ evs = evs'.
+Proof. exact run_history_strip. Qed.
+Print Assumptions C12_restart_steps_drop_out_in_model.
+
+Theorem C12_restart_observed : forall c, c12_check c = true -> forall r, In r (h_runs c) ->
+  let '(final', rs', evs') := run_history (adapter_of (r_eng r)) registry (h_init c) (strip_reqs (h_reqs c)) in
+  strip_resps (r_resps r) = strip_resps rs' /\ r_events r = evs' /\ r_final r = final'.
+Proof. exact restart_observed. Qed.
+Print Assumptions C12_restart_observed.
+
+(* exactness of the open deviation C12-F1: on EVERY case the models reproduce (any history, empty values included, any
+   engines) the pairwise oracle says None or code 1 — an empty value is written, all engines agree before that write,
+   the TiKV configurations agree among themselves and so do memkv / Badger / wrappers.  There is no other disagreement. *)
+Theorem C12_oracle_exact : forall c, c12_check c = true -> c12_oracle c = None \/ c12_oracle c = Some 1.
+Proof. exact c12_oracle_exact. Qed.
+Print Assumptions C12_oracle_exact.
+
+(* validity is decidable and evaluated *)
+Theorem C12_validb_sound : forall c, c12_validb c = true -> c12_valid c.
+Proof. exact c12_validb_ok. Qed.
+Print Assumptions C12_validb_sound.
+
+Theorem C12_oracle_sound_checked : forall c, c12_validb c = true -> c12_check c = true -> c12_oracle c = None.
+Proof. exact c12_oracle_sound_checked. Qed.
+Print Assumptions C12_oracle_sound_checked.
 
 (* ---- non-vacuity ---- *)
 Definition ex_key : bytes := registry ++ [47; 97].
@@ -132,7 +181,7 @@ Example C12_ex_valid : Forall (hist_ok nonempty) ex_history.
 Proof. repeat constructor; discriminate. Qed.
 
 (* a history in which writes succeed, fail on a condition, a delete tombstones the key and a create revives it;
-   all five engines' models answer alike *)
+   the three base engine models answer alike (the wrapper models are record copies of them) *)
 Example C12_ex_transcript :
   snd (fst (run_history memkv registry 1000 ex_history)) =
   [PUpdate false 1001 None; PCreate true 1002; PCreate false 1003;
@@ -165,3 +214,42 @@ Example C12_oracle_rejects_old_badger_get :
                 [mk_run EMem [PCreate true 1001; PGet 1001 (Some ([], 1001))] [] [];
                  mk_run EBadger [PCreate true 1001; PGet 1001 None] [] []]) = Some 0.
 Proof. vm_compute. reflexivity. Qed.
+
+(* a history with restart steps is valid, and the model answers it like the history without them *)
+Definition ex_restart_history : list req :=
+  [QCreate ex_key [118; 49]; QRestart; QUpdate ex_key [118; 50] 1001; QRestart; QGet ex_key 0; QCompact 0; QRestart; QGet ex_key 1001].
+
+Example C12_ex_restart : Forall (hist_ok nonempty) ex_restart_history /\
+  snd (fst (run_history badger registry 1000 ex_restart_history)) =
+  [PCreate true 1001; PRestarted; PUpdate true 1002 None; PRestarted; PGet 1002 (Some ([118; 50], 1002));
+   PCompact 1002 false; PRestarted; PGet 1002 None].
+Proof. split; [repeat constructor; discriminate|vm_compute; reflexivity]. Qed.
+
+(* four TiKV clients over one cluster, concretely *)
+Example C12_ex_multi_client :
+  run_history (multi_client tikv 3) registry 1000 ex_compact_history = run_history tikv registry 1000 ex_compact_history.
+Proof. vm_compute. reflexivity. Qed.
+
+(* a positive case: two runs (memkv and TiKV) exactly as the models answer ex_history: valid, passes the check, and the
+   oracle accepts it *)
+Definition ex_case : c12_case :=
+  let '(f1, r1, e1) := run_history memkv registry 1000 ex_history in
+  let '(f2, r2, e2) := run_history tikv registry 1000 ex_history in
+  mk_c12 1000 ex_history [mk_run EMem r1 e1 f1; mk_run ETiKV r2 e2 f2].
+
+Example C12_ex_case_covered : c12_validb ex_case && c12_check ex_case = true /\ c12_oracle ex_case = None.
+Proof. split; vm_compute; reflexivity. Qed.
+
+(* validity refuses a "comparison" of fewer than two runs *)
+Example C12_one_run_is_not_valid : c12_validb (mk_c12 1000 ex_history [mk_run EMem [] [] []]) = false.
+Proof. reflexivity. Qed.
+
+(* C12_compact_pass: its hypothesis holds at the start, and the pass comes back with a state on both sides *)
+Example C12_ex_compact_pass :
+  Rel sim_badger (a_init badger) [] /\
+  (exists s' k, worker_run badger true 1002 0 (a_init badger) (encode (registry ++ [47]) 0) (encode (registry ++ [48]) 0) = Some (s', k)) /\
+  (exists r' k, worker_run radapter true 1002 0 [] (encode (registry ++ [47]) 0) (encode (registry ++ [48]) 0) = Some (r', k)).
+Proof.
+  split; [exists (cs_of []); repeat split; try constructor; apply (sim_init _ _ sim_badger)|].
+  split; do 2 eexists; vm_compute; reflexivity.
+Qed.
